@@ -1,0 +1,85 @@
+//go:build verif
+
+package xtime
+
+// Contracts for the deductive verifier in /verif (property C20, input/configuration clauses).
+// Only part of the build under the tag `verif`. Timers, the clock and the random source are
+// assumed contracts (wall-clock behaviour is trusted).
+
+//@ ghost Context.donech <-chan struct{}
+//@ ghost Context.errv error
+//@ ghost Context.hasdl bool
+//@ ghost Context.dl time.Time
+//@ ghost Timer.dur int
+
+//@ ufun untilOf(t) int
+
+//@ ext context.Context.Done(ctx) (c)
+//@   ispure
+//@   ensures c == ctx.donech
+//@ ext context.Context.Err(ctx) (e)
+//@   ispure
+//@   ensures e == ctx.errv
+//@ ext context.Context.Deadline(ctx) (deadline, ok)
+//@   ispure
+//@   ensures ok == ctx.hasdl && deadline == ctx.dl
+//@ ext time.Until(t) (d)
+//@   ispure
+//@   ensures d == untilOf(t)
+//@ ext time.Now() (t)
+//@   ispure
+//@ ext time.NewTimer(d) (t)
+//@   ensures fresh(t) && fresh(t.C) && chn(t.C) == 1 && chpos(t.C) == 0 && t.dur == d
+//@ ext time.AfterFunc(d, f) (t)
+//@   ensures fresh(t) && t.dur == d
+//@ ext time.Timer.Stop(t) (wasActive)
+//@   requires t != nil
+//@ ext rand.Int63n(n) (r)
+//@   panics when n <= 0
+//@   ensures 0 <= r && r < n
+//@ ext sync.Mutex.Lock(m)
+//@   ispure
+//@ ext sync.Mutex.Unlock(m)
+//@   ispure
+
+//@ pred ctxOK(ctx) = ctx.donech == nil || (chn(ctx.donech) == 0 && chpos(ctx.donech) == 0 && (chclosed(ctx.donech) ==> ctx.errv != nil))
+
+//@ func SleepContext
+//@   props C20
+//@   requires ctxOK(ctx)
+//@   ghostinit tm := zeroof("*time.Timer")
+//@   after call NewTimer[0]: ghost tm := callresult
+//@   ensures d <= 0 ==> result == nil
+//@   ensures d > 0 && ctx.hasdl && untilOf(ctx.dl) < d ==> isa(result, DeadlineTooSoonError) && unbox(result, DeadlineTooSoonError).remaining == untilOf(ctx.dl) && unbox(result, DeadlineTooSoonError).d == d
+//@   ensures d > 0 && !(ctx.hasdl && untilOf(ctx.dl) < d) ==> (result == nil && tm.dur == d && chpos(tm.C) == 1) || (result == ctx.errv && result != nil && ctx.donech != nil && chclosed(ctx.donech))
+
+//@ pred tickerOK(t) = t.d > 0 && 0 <= t.jitter && t.jitter < t.d
+
+//@ func JitterTicker.schedule
+//@   props C20
+//@   requires tickerOK(t)
+//@   modifies t.gen, t.timer
+//@   ensures t.gen == old(t.gen) + 1 && t.timer != nil && fresh(t.timer)
+//@   ensures t.timer.dur >= t.d - t.jitter && t.timer.dur <= t.d + t.jitter && (t.jitter > 0 ==> t.timer.dur < t.d + t.jitter)
+
+//@ func NewJitterTicker
+//@   props C20
+//@   requires jitter >= 0
+//@   panics when d <= 0 || jitter >= d
+//@   ensures fresh(result) && tickerOK(result) && result.d == d && result.jitter == jitter && result.c != nil && result.C == result.c
+//@   ensures result.timer != nil && result.timer.dur >= d - jitter && result.timer.dur <= d + jitter
+
+//@ func JitterTicker.Reset
+//@   props C20
+//@   requires jitter >= 0
+//@   modifies t.d, t.jitter, t.gen, t.timer
+//@   panics when d <= 0 || jitter >= d
+//@   ensures tickerOK(t) && t.d == d && t.jitter == jitter && t.gen > old(t.gen)
+//@   ensures t.timer != nil && t.timer.dur >= d - jitter && t.timer.dur <= d + jitter
+
+// Stop invalidates every callback armed so far: they compare the generation they captured
+//@ func JitterTicker.Stop
+//@   props C20
+//@   requires t.timer != nil
+//@   modifies t.gen, t.timer
+//@   ensures t.gen > old(t.gen) && t.timer == nil
